@@ -290,13 +290,15 @@ CHECKS = {
         "on every scenario of the universe (functions f, g, h with up to 1 (thorough 2) calls to any of them or to an "
         "undefined name, three file arrangements, programs of up to 2 references: 57,036 / 1,967,448 scenarios). GenLink "
         "prints the scenarios; for a sample the check writes real ELF32 REL objects and ar archives (nv/elfobj.py), runs "
-        "the real naken_asm -l -type hex on program + files for mips, mips32, pic32, ps2_ee in 8 variants (extra "
+        "the real naken_asm -l -type hex on program + files for mips, mips32, pic32, ps2_ee in 10 variants (extra "
         "sections, static calls via section symbol + addend, big-endian objects, a non-object file, unaligned program "
-        "end, a function named like a mnemonic, a jal without relocation), and TraceLink (TLC) decodes the hex file, reads "
+        "end, a function named like a mnemonic, a jal without relocation, a program label with the name of an imported "
+        "function before or behind the call), and TraceLink (TLC) decodes the hex file, reads "
         "the symbol table and evaluates PlacedRight, PlacedOnce, OnlyNeeded, OnlyNeededSymbols, ErrorExpected.",
    design_ref="DESIGN.md 4 C20",
-   note="Duplicate definitions of one name across files and program labels that shadow imported names are not "
-        "generated; objects are well formed (malformed import files are not covered).",
+   note="Duplicate definitions of one name across files are not generated; objects are well formed (malformed import "
+        "files are not covered). For a program label that shadows an imported function and for big-endian objects a clean "
+        "error (status 1, no output) is accepted as well as a correct link.",
    technique="TLA+ reference semantics of linking plus a two-pass machine of the implementation, model-checked with TLC; "
              "TLC-enumerated scenarios turned into real ELF32/ar files and run through the real naken_asm; TLC trace acceptor"),
 }
